@@ -295,6 +295,7 @@ pub fn eval_doc(doc: &Doc, via_lsp: bool) -> (Vec<Failure>, &'static str, Option
                 | Rule::UndefinedType
                 | Rule::NotAVariable
                 | Rule::UndefinedVariable
+                | Rule::MainIsNotAProcedure
         ) && want.end == want.first + 1;
         let (s, e) = if on_identifier { (doc.r.tok_ranges[want.first].0, doc.r.tok_ranges[want.first].1) } else { byte_span(doc, want.first, want.end) };
         expectation = json!({"only_rule": format!("{:?}", want.rule), "inside_bytes": [s, e]});
